@@ -11,7 +11,10 @@ COMPONENTS = {
         "timeout": {"quick": 240, "thorough": 2400},
         "what": ("two real vivid systems in one process over loopback through the harness TCP proxy (re-chunks the byte stream: pass, 1-byte, "
                  "seeded random, frame-straddling, coalescing, 64 KiB, header-split; split handshake); the exact bytes handed to the receiving "
-                 "system are replayed on Remoting/Frame.v's receiver (deliveries to the actor, decoded frames, decode failures, invalid lengths)"),
+                 "system are replayed on Remoting/Frame.v's receiver (deliveries to the actor, decoded frames, decode failures, invalid lengths); "
+                 "receiver churn (harness/cmd/remoting/churn.go, own pair of systems): scripts of spawn / kill (termination awaited) / re-spawn under the same "
+                 "name / first spawn at a path that already received traffic / supervision restart on the RECEIVING system, interleaved with bursts, replayed on "
+                 "Remoting/Churn.v (per path: which incarnation and restart epoch received which message, which messages were dead-lettered)"),
     },
     "link": {
         "coq_run_module": "Remoting.RemRun",
@@ -51,7 +54,13 @@ PROPERTIES = {
                  "connection's byte stream (as chunked by the proxy, up to 160 KiB) with everything the receiving system observed; larger streams are "
                  "judged by the monitors only (per-sender exactly-once/order/checksum at the receiver AND a wire check: the sender's recorded byte stream must "
                  "be a sequence of whole frames, every sent message once, per-sender order). Includes rounds of 6-8 concurrent senders to two target actors with "
-                 "payloads mixed from 0 B .. 1 MiB (60/70/200 KiB: frames above 64 KiB) through the proxy and over a direct link. non-trivial = more than one frame and more than one chunk; distinct = distinct byte streams/chunkings"),
+                 "payloads mixed from 0 B .. 1 MiB (60/70/200 KiB: frames above 64 KiB) through the proxy and over a direct link. "
+                 "Receiver churn (8 scripts quick / 60 thorough, one chunking mode each, child actors of a supervising host actor and a top-level actor): every step is "
+                 "separated from the next by a round trip (all messages of a burst received or dead-lettered, the last message to a live actor is an Ask; kill waits for "
+                 "the parent's OnKilled and FindActor failing; spawn waits for OnLaunch); one case = one script with the bytes of every traffic phase, compared per path "
+                 "on (incarnation, epoch, message) deliveries and dead letters; monitor c11-live-actor-not-delivered: a message sent over the healthy link to a path where "
+                 "an actor is registered must reach THAT incarnation exactly once, in order, intact. "
+                 "non-trivial = more than one frame and more than one chunk; distinct = distinct byte streams/chunkings"),
         "modelled_not_verified": [
             _M5,
             "codec round trip dec (enc m) = Some m is a hypothesis of C11_exactly_once_in_order (Section hypothesis codec_roundtrip; the envelope layout "
@@ -59,6 +68,8 @@ PROPERTIES = {
             "utils.NormalizeAddress / NormalizePath idempotence is a hypothesis of C11_sender_ref (norm_addr_idem, norm_path_idem), checked by differential "
             "testing on the implementation each run",
             "bufio.Reader + io.ReadFull = an unbounded buffer refilled by arbitrary reads (Frame.read_full)",
+            "receiver churn: the steps of a script are sequential (Churn.run_churn; the harness separates them by round trips); a kill / spawn racing with traffic "
+            "in flight is not modelled; the registry is actorContexts restricted to actors (ActorOf = LoadOrStore, final kill = Delete, restart keeps the entry)",
         ],
     },
     "C14": {
@@ -119,7 +130,9 @@ META = {
                  "reads, 4-byte big-endian length, zero-length close, oversize discard, decode-failure-continues, handshake read with ReadFull) computes a "
                  "function of the concatenated stream only (chunking independence is proved, not assumed); every list of messages whose envelopes are 1..4 MiB "
                  "is delivered exactly once, in order, intact, for every chunking including splits inside the handshake; no envelope is empty (>= 25 bytes) so "
-                 "the close marker cannot collide; the receiver rebuilds exactly the sender/receiver refs the encoder wrote. Tied to the code by replaying the "
+                 "the close marker cannot collide; the receiver rebuilds exactly the sender/receiver refs the encoder wrote; the receiving system resolves "
+                 "the receiver at arrival time: after kill + re-spawn under the same name (any history) the messages go to the new incarnation exactly once, in order, "
+                 "after a supervision restart to the same incarnation, while nobody is registered to the dead letters (Remoting/Churn.v). Tied to the code by replaying the "
                  "exact bytes a proxy handed to a real system on the model and comparing everything the system observed."),
         "design_ref": "DESIGN.md section 4 C11",
         "note": ("Trusted: Coq kernel; extraction; the harness proxy and observers; M5; codec round trip and normaliser idempotence as explicit hypotheses. "
